@@ -7,31 +7,49 @@ CFG = {
     "trivial_prefix": ("-", "bad-op"),
     "design_ref": "DESIGN.md §5 C17; notes/C17.md",
     "technique": "Lean 4 refinement proof (simulation with abs s = (text, cursor), invariant cursor <= length) of executable models of "
-                 "vxfw/textfield.TextField and widgets/textinput.Model against the ideal editor Spec.Editor; differential correspondence "
-                 "on the exported API with Spec.Editor as oracle on the real widgets",
-    "rule": "one case = one op sequence from a starting content; TextField: key events through HandleEvent (23 keys incl. unbound, releases, "
-            "typed graphemes), InsertStringAtCursor/CursorTo/Delete*/Reset, Draw at widths 0..12; textinput: Update with keys, paste keys, "
-            "PasteEnd, release, SetContent, Draw at widths 1..12 with/without prompt. Bounded-exhaustive: all sequences of length 4 (quick) / "
-            "5 (thorough) over an 11-op alphabet per widget from 3 starting contents; random sequences up to 200 ops over 9 graphemes "
-            "(narrow, wide, multi-codepoint, ZWJ emoji, zero-width). Distinct by the whole sequence.",
+                 "vxfw/textfield.TextField and widgets/textinput.Model against the ideal editor Spec.Editor - for graphemes that never merge "
+                 "(apply) and for texts of code points under any segmentation meeting three laws (applyC = grapheme editor + re-segmentation); "
+                 "differential correspondence on the exported API with Spec.Editor as oracle on the real widgets",
+    "rule": "one case = one op sequence from a starting content. Kinds tf/ti (13 graphemes that never merge): TextField key events through "
+            "HandleEvent (24 keys incl. unbound, releases, typed graphemes), InsertStringAtCursor/CursorTo/Delete*/Reset, Draw at widths 0..12; "
+            "textinput Update with keys, paste keys, PasteEnd, release, SetContent, SetInvisibleChar, Draw at widths 1..40 with/without prompt "
+            "(cursor column and every cell of the row observed). Bounded-exhaustive: all sequences of length 4 (quick) / 5 (thorough) over an "
+            "11-op alphabet per widget from 3 starting contents; word motions: every start of length <= 4 over letter/blank/'.'/'-'/wide/ZWJ "
+            "emoji x every cursor position x Alt+b, Alt+f, Ctrl+w, Ctrl+Left, Ctrl+Right, Alt+d; random sequences up to 200 ops. Kinds tfc/tic "
+            "(19 code points: combining mark, ZWJ, VS16, regional indicators, emoji, Hangul jamo, skin tone, tab): every start of length <= 4 x "
+            "every cursor position x 18 inserts typed one code point at a time and pasted (InsertStringAtCursor, one key event, paste bracket), "
+            "then letter, BackSpace, Left, Delete, Draw; random sequences over all code points. Distinct by the whole sequence.",
     "trusted_base": [
         "Key.Matches / Key.String (C09's subject) are evaluated by the real code in the harness; the model receives the 8 binding verdicts "
         "of HandleEvent in source order, resp. the msg.String() text",
-        "A-concat: Value is modelled as the list of its clusters; the harness alphabet is merge-free and every observed value is re-clustered "
+        "the segmentation cl (uniseg / vaxis.Characters) is a parameter of the clustered models; the theorems hold for every cl meeting "
+        "Spec.Editor.Segmentation (clusters concatenate to the text; the first i clusters re-segment to i clusters; appending never lowers the "
+        "count). That uniseg meets the three laws is not proved; the driver's UAX #29 oracle clUax is compared with uniseg's clustering of the "
+        "widget's value on every op, widths of clusters come from vaxis.Characters per op",
+        "kinds tf/ti: Value is modelled as the list of its clusters; that alphabet never merges and every observed value is re-clustered "
         "with uniseg (an unknown cluster would fail the comparison)",
-        "TextField.cursor is observed through Draw's Cursor.Col (exported API only); textinput's through CursorPosition(); drawn cursor of "
-        "textinput through the add-only hook VerifC17Cursor",
+        "TextField.cursor is observed through Draw's Cursor.Col (exported API only); textinput's through CursorPosition(); drawn cursor and "
+        "drawn cells of textinput through the add-only read-only hooks VerifC17Cursor / VerifC17Row; Window.Fill/SetCell clipping is renderRow "
+        "in the driver (one cell per SetCell, last write wins, outside the window dropped)",
     ],
-    "assumptions": ["graphemeCountInString(Value) = number of clusters (A-concat)", "uint cursor arithmetic does not wrap (guarded subtractions only)"],
-    "level_text": "Proved for all histories from any starting content: textfield_refines (+ invariant n = count, cursor <= length), "
-                  "textfield_callbacks_exact, textfield_cursor_column; textinput_refines (every Update/SetContent/Draw call returns - no index "
-                  "panic, no hang - and equals the ideal operation), draw_terminates, textinput_cursor_column (whatever the old scroll offset). "
-                  "Gen theorems: the case labels of Update's switch, its default-arm guards, the scroll-loop condition, scrolloff and the if-chain "
-                  "of HandleEvent, extracted from the source on every run, equal the tables the models dispatch on. F46, F47 and F117 were real "
-                  "violations, fixed in /repo (one commit each).",
-    "level_note": "Validated by correspondence only: that Key.String()/Key.Matches produce the strings/verdicts the tables list (C09's subject; 23 keys "
-                  "per widget are run through the real code). Modelled, not verified: combining "
-                  "marks typed separately into TextField (cluster merge; cursor can exceed the count until the next clamp - see notes open items), "
-                  "textinput cell contents (truncator, invisibleChar).",
+    "assumptions": ["Segmentation cl (three laws, see trusted_base) for the *_clustered theorems; cl = singletons for the others",
+                    "uint cursor arithmetic does not wrap (guarded subtractions only)"],
+    "level_text": "Proved for all histories from any starting content, for graphemes that never merge AND for texts whose graphemes merge under any "
+                  "Segmentation (typed/pasted combining marks, joiners, variation selectors, flags, jamo; deletions that bring parts of a grapheme "
+                  "together): textfield_refines(_clustered) (+ invariant n = count, cursor <= length), textfield_callbacks_exact(_clustered), "
+                  "textfield_cursor_column(_clustered) (display width = total width of the characters a grapheme is drawn as, e.g. 8 for a tab); "
+                  "textinput_refines(_clustered) (every Update/SetContent/Draw call returns - no index panic, no hang - equals the ideal operation, "
+                  "content stays the segmentation of its text), draw_terminates, textinput_cursor_column and textinput_cells_fit (while prompt + "
+                  "text + scrolloff fit, whatever the old offset: the cells written are exactly the prompt then the text's graphemes - or the mask - "
+                  "each at the column = display width before it, no truncator). Gen theorems: case labels of Update's switch, default-arm guards, "
+                  "scroll-loop condition, scrolloff, the if-chain of HandleEvent, and (facts_*_bodies) for every modelled function all writes to "
+                  "receiver fields, receiver calls, returns and loops in full, extracted from the source on every run, equal what the models "
+                  "transcribe. F46, F47, F117 (round 1) and F217, F317, F417 (round 2) were real violations, fixed in /repo (one commit each).",
+    "level_note": "Validated by correspondence only: that Key.String()/Key.Matches produce the strings/verdicts the tables list (C09's subject); that "
+                  "uniseg is a Segmentation and equals the driver's clUax (compared on every op); textinput's cells and cursor column when the line "
+                  "does NOT fit (scrolled view, truncators: modelled in drawCells/cursorLoop and compared cell by cell, no theorem). Modelled, not "
+                  "verified: nothing in the editing functions; guards outside loops are tied by correspondence, not by Gen facts. Not modelled: "
+                  "direct assignment to the public field TextField.Value, HideCursor, a tab typed into textinput (vaxis.Characters turns it into 8 "
+                  "blanks before the editor sees it). Stated in prose only: that applyC with cl = singletons is apply.",
     "timeout": 1500,
 }
